@@ -147,7 +147,8 @@ def rel(o):
 
 
 def monitors(scenario, trace, status):
-    probs = {"C06": [], "C07": [], "C08": []}
+    # C03 gets the part of C08 that concerns `send`, the operation a signal handler runs
+    probs = {"C06": [], "C07": [], "C08": [], "C03": []}
     nested_host = {}
     for l in scenario:
         w = l.split()
@@ -186,6 +187,8 @@ def monitors(scenario, trace, status):
             continue
         if body.startswith("PANIC"):
             probs["C08"].append("step %d: t%d panicked: %s" % (i, tid, body[6:]))
+            if cur.get(tid, {}).get("op") == "send":
+                probs["C03"].append("step %d: a send (what a delivery runs) on t%d panicked: %s" % (i, tid, body[6:]))
             continue
         if body.startswith("RACE"):
             probs["C07"].append("step %d: t%d accesses a cell without happens-before to its previous access (model view check)" % (i, tid))
@@ -260,6 +263,8 @@ def monitors(scenario, trace, status):
             bound = 7 + 2 * st["fails"]
             if st["steps"] > bound:
                 probs["C08"].append("step %d: %s on t%d took %d own steps with %d failed CAS (bound %d)" % (i, st["op"], tid, st["steps"], st["fails"], bound))
+                if st["op"] == "send":
+                    probs["C03"].append(probs["C08"][-1])
             if body.startswith("ret recv some"):
                 tg = int(body.split()[3])
                 received.append(tg)
@@ -291,8 +296,12 @@ def monitors(scenario, trace, status):
             probs["C08"].append("%s on t%d has taken %d own steps (%d failed CAS, bound %d) without returning: it waits for another operation to make progress%s" % (
                 st["op"], tid, st["steps"], st["fails"], bound,
                 " - the one it interrupted, which cannot run before this one returns" if tid in nested_host else ""))
+            if st["op"] == "send":
+                probs["C03"].append(probs["C08"][-1])
     if not status.startswith("END done"):
         probs["C08"].append("scenario did not run to completion: %s" % status)
+        if any(st["op"] == "send" for st in cur.values()):
+            probs["C03"].append("scenario did not run to completion with a send unfinished: %s" % status)
     fin = next((l for l in trace if l.startswith("final-drop")), None)
     if fin is not None and "?" not in fin:
         for tg in [int(x) for x in fin[fin.index("[") + 1:fin.index("]")].split(",") if x]:
